@@ -15,6 +15,7 @@ import Driver.C12
 import Driver.C04
 import Driver.C07
 import Driver.C06
+import Driver.C08
 /-! `votca_driver`: reads protocol lines `Cxx <op> <args…>` (implementation outputs included) on stdin,
 runs the executable model definitions (the ones the theorems are about) on the same inputs, prints
 `DISAGREE` / `PROPFAIL` lines for the cases that do not check and a `SUMMARY` at the end. -/
@@ -49,6 +50,7 @@ def dispatch (toks : List String) : Verdict :=
   | "C04" :: r => Driver.C04.handle r
   | "C07" :: r => Driver.C07.handle r
   | "C06" :: r => Driver.C06.handle r
+  | "C08" :: r => Driver.C08.handle r
   | _ => { agree := false, msg := "bad-line unknown property", tag := "bad" }
 
 partial def loop (h : IO.FS.Stream) (maxPrint : Nat) (acc : DAcc) : IO DAcc := do
